@@ -9,7 +9,7 @@ from vlib.pyvc import interp as I
 def proved(run):
     run.trust("pyvc symbolic interpreter over the real AST", f"z3 {z3.get_version_string()}")
     pass
-    for f in (C2.c19_convert,):
+    for f in (C2.c19_convert, C2.c19_char_cfg_wiring):
         try:
             f(run)
         except (I.OutOfSubset, KeyError) as e:
